@@ -59,19 +59,25 @@ def sweep_enums(w, snap, r):
                     num = r.choice(schema_numbers(w, which))
                     nm = py_name_for_number(w, which, num)
                     n.a[which] = nm if nm is not None else "?schema#%d" % num
+                    w.counters["enum:%s:%d" % (which, num)] += 1
                     swept += 1
         elif n.kind == "sec" and r.random() < 0.6:
             nums = r.sample(schema_numbers(w, "flags"), r.randrange(1, 5))
+            for x in nums:
+                w.counters["enum:flags:%d" % x] += 1
             n.a["flags"] = set((py_name_for_number(w, "flags", x) or "?schema#%d" % x) for x in nums)
             swept += 1
         elif n.kind == "cb" and r.random() < 0.5:
             num = r.choice(schema_numbers(w, "decode_mode"))
+            w.counters["enum:decode_mode:%d" % num] += 1
             n.a["decode_mode"] = py_name_for_number(w, "decode_mode", num) or "?schema#%d" % num
             swept += 1
         elif n.kind == "bi":
             for off, cell in n.a["se"].items():
                 if r.random() < 0.5:
                     nums = r.sample(schema_numbers(w, "se_attr"), r.randrange(1, 4))
+                    for x in nums:
+                        w.counters["enum:se_attr:%d" % x] += 1
                     attrs = frozenset((py_name_for_number(w, "se_attr", x) or "?schema#%d" % x) for x in nums)
                     cell[0] = cell[0][:-1] + (attrs,)
                     swept += 1
@@ -80,6 +86,7 @@ def sweep_enums(w, snap, r):
     for s, t, lab in irn.a["cfg"]:
         if lab is not None and r.random() < 0.6:
             num = r.choice(schema_numbers(w, "edge_type"))
+            w.counters["enum:edge_type:%d" % num] += 1
             lab = (py_name_for_number(w, "edge_type", num) or "?schema#%d" % num, lab[1], lab[2])
             swept += 1
         new.add((s, t, lab))
